@@ -3,7 +3,7 @@ import producer_common as pc
 META = dict(
     level="model_checking",
     engine="Producer",
-    technique='broker-worker batching rules in spec/Producer.tla model-checked by TLC; size/count/latency families executed on the real producer; TLC validates max_messages / max_message_bytes / max_request_size / oversize_rejected_not_sent / flush_without_more_input on the produce requests the simulated brokers received',
+    technique='broker-worker batching rules (wouldOverflow / waitForSpace / readyToFlush / frequency timer) modelled in spec/Batching.tla and model-checked by TLC over every assignment of sizes and partitions to 4-5 messages (limits as invariants on every request, flush-without-further-input as a liveness property under weak fairness, with a non-vacuity run of the seeded timer variant); size/count/latency families executed on the real producer; TLC validates max_messages / max_message_bytes / max_request_size / oversize_rejected_not_sent / flush_without_more_input on the produce requests the simulated brokers received',
     text='The simulated brokers log for every produce request the wire size, the number of messages and the key+value bytes per partition batch. Families: Flush.MaxMessages 1..3 with a slow broker so batches accumulate, message sizes straddling MaxMessageBytes (limit-40..limit+40) for both overhead estimates (0.10 / 0.11), lowered MaxRequestSize, a lone message with each single trigger (none, Flush.Messages, Flush.Bytes, Flush.Frequency) which must reach a broker without further input.',
     note="the timing clause only separates 'sent without further input' (within 2.5 s) from 'never sent'; configurations that set Flush.Messages/Bytes without Flush.Frequency and never reach the threshold are outside the domain (Config.Validate warns); bounded model",
     design_ref="6/C16",
@@ -13,4 +13,9 @@ META = dict(
 def run(ctx):
     fams = [pc.family_limits, pc.family_timer, lambda: pc.family_overflow(False), lambda: pc.family_faults(False, ctx.seed)[:60]]
     mc = ["MCProducer.small.cfg"] if ctx.tier == "quick" else ["MCProducer.quick.cfg"]
-    return pc.check(ctx, "C16", fams, mc)
+    q = ctx.tier == "quick"
+    extra = [("MCBatching", "MCBatching.limits4.cfg" if q else "MCBatching.limits.cfg", None),
+             ("MCBatching", "MCBatching.live.cfg", None),
+             ("MCBatching", "MCBatching.livebug.cfg", "EventuallySent"),
+             ("MCBatching", "MCBatching.nolimit4.cfg" if q else "MCBatching.nolimit.cfg", None)]
+    return pc.check(ctx, "C16", fams, mc, extra_mc=extra)
